@@ -13,6 +13,7 @@ from typing import Optional, TYPE_CHECKING
 from ..base_manager import BaseManager
 from .cache import TransferNullCache, TransferCache
 from ..constants import (
+    IDLE_TRANSFER_MGMT_INTERVAL,
     MAX_TRANSFER_MGMT_INTERVAL,
     MIN_TRANSFER_MGMT_INTERVAL,
     TRANSFER_REPLY_TIMEOUT,
@@ -515,7 +516,13 @@ class TransferManager(BaseManager):
             await self._user_manager.untrack_user(username, TrackingFlag.TRANSFER)
 
     async def _management_job(self) -> float:
-        await self._management_queue.get()
+        # Settings that influence scheduling (upload slots) can change without
+        # any event requesting a cycle: run one periodically as well
+        try:
+            async with atimeout(IDLE_TRANSFER_MGMT_INTERVAL):
+                await self._management_queue.get()
+        except asyncio.TimeoutError:
+            pass
 
         start = time.monotonic()
 
